@@ -178,8 +178,16 @@ Notation ev b := (expr_values_t (template_values is_alpha b) qv).
 Lemma vals_rex b e : vals_of (rex is_alpha b T rq e) = (ev b) e.
 Proof. unfold rex. rewrite rendered_values_general. apply expr_values_t_ext. exact Hq. Qed.
 
+Lemma vals_rchain b len ms : forall i,
+  vals_of (rchain is_alpha b T rq len i ms) = flat_map (fun m => (ev b) (snd m)) ms.
+Proof.
+  induction ms as [|[o e] ms IH]; intros i; cbn [rchain flat_map snd]; [reflexivity|].
+  unfold rchain_member. rewrite !vals_of_app, vals_of_wrap, IH, vals_rex.
+  destruct (Nat.ltb 0 i); [destruct o|]; reflexivity.
+Qed.
+
 Lemma vals_rholder b kw h : vals_of (rholder is_alpha b T rq kw h) = holder_values (ev b) h.
-Proof. destruct h; cbn [rholder holder_values]; vs; [reflexivity|apply vals_rex]. Qed.
+Proof. destruct h; cbn [rholder holder_values]; vs; [reflexivity|apply vals_rchain|apply vals_rex]. Qed.
 
 Lemma vals_rtplain t : vals_of (rtplain t) = [].
 Proof. destruct t; reflexivity. Qed.
